@@ -23,6 +23,11 @@ def c04(tier):
 
     def steps_check(verdict, sessions, wd):
         vcov.update(vmt.run(verdict, wd, [('tail', 25 if q else 1200)], vlib.seed()))
+        # the compiler must emit TCALL for exactly the applications in tail position (Compile of
+        # spec/Machine.tla carries the tail flag through if / lambda bodies as R7RS 3.5 defines it, derived forms
+        # reach it expanded), and TCALL must rebuild the frame in place (Exec): listing and register trace
+        import mach
+        vcov.update(mach.run(verdict, wd, [('tail', 30 if q else 1500)], vlib.seed()))
 
     def extra(sessions, ends):
         ctx = {}
